@@ -36,10 +36,11 @@ TYPE_NAMES = {
   20: "QUEUE_GET_CONFIG_REQUEST", 21: "QUEUE_GET_CONFIG_REPLY",
 }
 
-# Direction tables of the specification (symmetric messages are in both).
+# Direction tables of the specification (symmetric messages are in both).  OFPT_ERROR travels both ways:
+# section 4.1 (version negotiation) makes either end answer an unsupported HELLO with OFPET_HELLO_FAILED.
 TO_CONTROLLER = [HELLO, ERROR, ECHO_REQUEST, ECHO_REPLY, VENDOR, FEATURES_REPLY, GET_CONFIG_REPLY,
                  PACKET_IN, FLOW_REMOVED, PORT_STATUS, STATS_REPLY, BARRIER_REPLY, QUEUE_GET_CONFIG_REPLY]
-TO_SWITCH = [HELLO, ECHO_REQUEST, ECHO_REPLY, VENDOR, FEATURES_REQUEST, GET_CONFIG_REQUEST, SET_CONFIG,
+TO_SWITCH = [HELLO, ERROR, ECHO_REQUEST, ECHO_REPLY, VENDOR, FEATURES_REQUEST, GET_CONFIG_REQUEST, SET_CONFIG,
              PACKET_OUT, FLOW_MOD, PORT_MOD, STATS_REQUEST, BARRIER_REQUEST, QUEUE_GET_CONFIG_REQUEST]
 
 OFPST_DESC, OFPST_FLOW, OFPST_AGGREGATE, OFPST_TABLE, OFPST_PORT, OFPST_QUEUE, OFPST_VENDOR = 0, 1, 2, 3, 4, 5, 0xffff
